@@ -143,6 +143,7 @@ func NewReplicateChannelManager(
 
 func (r *replicateChannelManager) SetCtx(ctx context.Context) {
 	r.replicateCtx = ctx
+	verifTuneManager(r)
 }
 
 func (r *replicateChannelManager) getCtx() context.Context {
